@@ -208,7 +208,7 @@ def parserFor (parse : ParseKind) (node : NodeKind) : Except Err ParserName := d
   | .class_ => pure .class_
   | .function => pure .function
   | .json_schema => pure .jsonSchema
-  | .pydantic => pure .pydantic
+  | .pydantic => throw .attributeError                     -- `cdd/pydantic/parse.py` defines no function `pydantic`
   | .sqlalchemy => pure .sqlalchemy
 
 inductive KwKey where
